@@ -13,7 +13,7 @@ EXPLANATION = ("Static structural clauses of C12 decided from MIR/HIR facts of t
                "block at pack_offset + global_offset and reassigns only pack_location; (R4) every write in set_location is "
                "control-dependent on the uuid equality. The byte-level claim (file otherwise bit-identical) is not decided."
                " (R6) the readers a container hands out for its packs are cut with in_memory = false (set_location relies on their global offset)."
-               ' Added later: (R7) the reader accepts the lengths the writer accepts; (R8) the padded location is written in straight-line code, one run of size - len zeros; (R9) pack_location is assigned only by PackInfo, the creators and set_location; (R10) a pack of the file at hand is found by uuid whatever its location says (= C10-R1).')
+               ' Added later: (R7) the reader accepts the lengths the writer accepts; (R8) the padded location is written in straight-line code, one run of size - len zeros; (R9) pack_location is assigned only by PackInfo, the creators and set_location; (R10) a pack of the file at hand is found by uuid whatever its location says (= C10-R1). (R11) PackInfo::serialize writes each field of the struct from that field.')
 ASSUMPTIONS = ["seek/write semantics of std::fs::File", "rustc MIR construction and trait resolution (nightly in the image)",
                "reference table /verif/format/reference_v0_2.json for the v0.2 constants"]
 
